@@ -483,7 +483,10 @@ static void treeCase(uint64_t seed, long k) {
     fscale = std::max(maxAbs(resid0), maxAbs(residNoLambda));   // size of the terms that make up f (before cancellation)
     const double udotErrNorm = s.getUDotErr().size() ? maxAbs(s.getUDotErr()) : 0.0;
     // ---- equation of motion with the reported tau, for EVERY case:  M udot + tau + ~G lambda + f_inertial - f_applied = 0
-    if (nu > 0) {
+    // (only multipliers of absurd size are excluded: a constraint that cannot move anything - e.g. between two bodies
+    // welded together - has G = 0 up to rounding and gets lambda ~ 1e16, so ~G*lambda is noise; that is C08's business)
+    if (nu > 0 && lambda.size() && !(maxAbs(lambda) <= 1e6)) vh::D("eom.skipped.hugeMultipliers");
+    else if (nu > 0) {
         Vector r; matter.calcResidualForce(s, mobF, bodyF, udot, lambda, r);
         Vector Mud; matter.multiplyByM(s, udot, Mud);
         double sc = 1; upd(sc, fscale); upd(sc, maxAbs(Mud)); upd(sc, maxAbs(tauFull));
